@@ -252,6 +252,7 @@ class World:
         self.region = build_region(self.mesh, doc.get("region"))
         self.field = build_field(self.region, doc.get("field", {}), self.seed)
         self.umats = []
+        self.given_statevars = {}
         self.items = []
         self.boundary_regions = {}
         self.umat_wrap = umat_wrap
@@ -308,7 +309,14 @@ class World:
                 kw["block"] = it["block"]
             if it.get("density") is not None:
                 kw["density"] = it["density"]
-            return api("SolidBody", fem.SolidBody, self.seed, self._umat(k, it["umat"]), f, **kw)
+            um_ = self._umat(k, it["umat"])
+            if it["umat"]["name"] in HISTORY_MATERIALS and pick(self.seed, f"explicit-statevars:{k}", 3) == 0 and hasattr(getattr(um_, "inner", um_), "x"):
+                # the caller hands over the array of the initial state variables (start from a known state)
+                xs = getattr(um_, "inner", um_).x
+                sv0 = np.zeros((*xs[-1].shape, f.region.quadrature.npoints, f.region.mesh.ncells))
+                self.given_statevars[k] = sv0
+                kw["statevars"] = sv0
+            return api("SolidBody", fem.SolidBody, self.seed, um_, f, **kw)
         if t == "SolidBodyNearlyIncompressible":
             kw = {}
             if it.get("density") is not None:
